@@ -788,4 +788,5 @@ def cases(tier, seed):
     for unit, ref, scale, lb, lf in logs:
         for ac in (False, True):
             out.append(Case("H06.d", f"{unit}:ac={ac}", M, "h_log", {"unit": unit, "ref": ref, "scale": scale, "logbase": lb, "logfactor": lf, "autoconvert": ac}, validate=0))
+    out.append(Case("H06.obs", "observed", "pvlib.harness.observed", "h_c06", {}, kind="conc"))
     return out
